@@ -81,6 +81,7 @@ type World struct {
 	// MemberYields: park at the curve.member yield point (between the member evaluations of a function curve)
 	MemberYields bool
 	restore      *pendingRestore
+	afterSeen    map[*FaultSpec]int       // operations seen by time-bound faults since they were armed
 	homeScratch  string                   // scratch directory below the home directory (home-relative file sensors)
 	curExecByG   map[uint64]*kernel.Event // the command each goroutine is about to start
 	curExecMu    sync.Mutex
@@ -574,6 +575,25 @@ func (w *World) nextFault(op string, tg *Target, flags kernel.Flags) *FaultSpec 
 	cur := map[string]int{}
 	for _, ft := range fl {
 		if !flagMatch(ft, flags) || strings.HasPrefix(ft.Kind, "delay:") {
+			continue
+		}
+		if ft.After > 0 {
+			// a fault bound to a virtual time: it counts the matching operations from that moment on
+			if w.K.Now() < ft.After.D() {
+				continue
+			}
+			if w.afterSeen == nil {
+				w.afterSeen = map[*FaultSpec]int{}
+			}
+			n := w.afterSeen[ft]
+			w.afterSeen[ft] = n + 1
+			cnt := ft.Count
+			if cnt <= 0 {
+				cnt = 1
+			}
+			if hit == nil && n >= ft.Nth && n < ft.Nth+cnt {
+				hit = ft
+			}
 			continue
 		}
 		ckey := key + "|" + ft.OnlyFlags
